@@ -9,3 +9,4 @@ INVARIANT Invariants
 INVARIANT StoredHasHandler
 VIEW View
 CHECK_DEADLOCK FALSE
+PROPERTY RefinesApProof
